@@ -293,6 +293,9 @@ func refMessage(spec *Sx, ops []*Sx) ([]byte, bool) {
 		return nil, false
 	}
 	B, auto, enc := a[1].List[0].Int(), a[1].List[1].Bool(), a[1].List[2].Atom
+	if B == 0 {
+		B = 8 // Length 0 is the default block of 8 bytes
+	}
 	var ids []int
 	for id := range vals {
 		if id < 2 || (auto && id%(8*B) == 1) {
